@@ -37,8 +37,15 @@ pub enum ROp {
     Drain,
     Req { id_sel: u8, dl: Dl },
     Cancel { id_sel: u8 },
-    /// the application answers: poll_ready, start_send(Response{id}), optionally poll_flush
-    Respond { id_sel: u8, flush: bool },
+    /// the application answers: poll_ready, start_send(Response{id}), optionally poll_flush;
+    /// `fail`: the transport rejects exactly this item (one-shot start_send failure, e.g. an unencodable
+    /// frame) and the application goes on using the channel
+    Respond {
+        id_sel: u8,
+        flush: bool,
+        #[serde(default)]
+        fail: bool,
+    },
     Flush,
     Advance { us: u64 },
     /// advance so that the clock lands at (deadline of a tracked request) + delta_us
@@ -190,6 +197,7 @@ pub struct RawStats {
     pub ambiguous: bool,
     pub timer_wakes: u32,
     pub granule_skips: u32,
+    pub write_failures: u32,
     pub panicked: Option<String>,
 }
 
@@ -408,7 +416,7 @@ async fn run_inner(sc: &RawScenario) -> (RawStats, Option<Div>, Vec<String>) {
                 m.inbound.push_back(In::Cancel { id });
                 tr.deliver(ClientMessage::Cancel { trace_context: Default::default(), request_id: id });
             }
-            ROp::Respond { id_sel, flush } => {
+            ROp::Respond { id_sel, flush, fail } => {
                 let id = pick_id(*id_sel, &m.tracked);
                 let mut cx = Context::from_waker(&w);
                 let ready = match crate::sim::exec::catch(|| chan.as_mut().poll_ready(&mut cx)) {
@@ -424,12 +432,42 @@ async fn run_inner(sc: &RawScenario) -> (RawStats, Option<Div>, Vec<String>) {
                         let before = tr.buffered() + tr.wire_len();
                         let tracked = m.tracked.get(&id).copied();
                         let body = tracked.map(|t| t.0).unwrap_or(0);
+                        let armed = *fail && tracked.is_some();
+                        if armed {
+                            tr.set_fault(crate::sim::hist::IoOp::Send, 0);
+                        }
                         let r = crate::sim::exec::catch(|| {
                             chan.as_mut().start_send(Response { request_id: id, message: Ok(body + 1_000_000) })
                         });
+                        tr.clear_faults();
                         match r {
                             Err(p) => div!("C16", "start_send panicked: {p}"),
+                            Ok(Err(e)) if armed => {
+                                // the application did answer; the channel could not transmit it. The request is over
+                                // either way and must not stay counted (nobody will answer or cancel it again).
+                                let is_write = matches!(e, tarpc::ChannelError::Write(_));
+                                let e = e.to_string();
+                                log.push(format!("  start_send(Response id={id}) rejected by the transport: {e}"));
+                                if !is_write {
+                                    div!("C09", "a failed response write was reported as: {e}");
+                                }
+                                let (body, _, _) = tracked.unwrap();
+                                m.tracked.remove(&id);
+                                m.ended.insert(body, EndedBy::Response);
+                                st.write_failures += 1;
+                                may_poll_again = true;
+                                let n = chan.in_flight_requests();
+                                if n != m.tracked.len() {
+                                    div!("C11", "in_flight_requests() = {n} after the response for request {id} was handed over and rejected by the transport; {} requests are unanswered", m.tracked.len());
+                                }
+                                let timers = chan.verif_deadline_timers();
+                                if timers != m.tracked.len() {
+                                    div!("C11", "{timers} deadline timers after a rejected response write, {} requests tracked", m.tracked.len());
+                                }
+                                continue;
+                            }
                             Ok(Err(e)) => div!("C09", "start_send failed without a fault: {e}"),
+                            Ok(Ok(())) if armed => div!("C09", "the transport rejected Response(id={id}) but start_send reported success"),
                             Ok(Ok(())) => {}
                         }
                         let wrote = tr.buffered() + tr.wire_len() - before;
@@ -564,7 +602,7 @@ pub fn strategy() -> BoxedStrategy<RawScenario> {
         8 => Just(ROp::Drain),
         22 => (id, dl).prop_map(|(id_sel, dl)| ROp::Req { id_sel, dl }),
         10 => id_hit.clone().prop_map(|id_sel| ROp::Cancel { id_sel }),
-        14 => (id_hit, any::<bool>()).prop_map(|(id_sel, flush)| ROp::Respond { id_sel, flush }),
+        14 => (id_hit, any::<bool>(), proptest::bool::weighted(0.12)).prop_map(|(id_sel, flush, fail)| ROp::Respond { id_sel, flush, fail }),
         2 => Just(ROp::Flush),
         5 => prop_oneof![1u64..3_000, (1u64..300).prop_map(|ms| ms * 1000)].prop_map(|us| ROp::Advance { us }),
         8 => (any::<u16>(), prop_oneof![Just(-1000i32), Just(-1), Just(2000), Just(2001), 2000i32..50_000, -50_000i32..-1])
@@ -616,6 +654,9 @@ pub fn check_for(prop: &'static str, sc: &RawScenario) -> CaseResult {
     }
     if st.granule_skips > 0 {
         classes.push("raw:poll-postponed-past-timer-granule");
+    }
+    if st.write_failures > 0 {
+        classes.push("raw:response-write-rejected-channel-used-further");
     }
     if st.timer_wakes > 0 {
         classes.push("raw:woken-by-timer");
